@@ -25,7 +25,10 @@ RULE = ("every tree of U(n) (all rooted shapes on n labelled leaves, n up to the
         "leaf predicate x every set of excluded non-root internal nodes, extract_tree_with(out)_taxa(_labels)); plus "
         "side layers: non-recursive / internal-node-accepting leaf filters, one-shot iterables and other containers "
         "as the taxa argument, extraction attribute names, trees whose internal nodes carry taxa (every subset of "
-        "all taxa x the three filter-flag settings of prune_taxa), trees with one pre-existing unifurcation, and "
+        "all taxa x the three filter-flag settings of prune_taxa), source trees that already contain out-degree-one nodes "
+        "(one chain of 1 or 2 above any node incl. leaves and the root, or two single ones above any two nodes; every child "
+        "order up to 4 leaves, as-generated and reversed above; every survivor subset x suppress {T,F}; each extraction "
+        "result compared with the reference AND with prune_taxa / retain_taxa run in place on a fresh copy), and "
         "Node.extract_subtree started at every inner node; a case = one API call on a freshly built tree; "
         "non-trivial = tree has >= 3 leaves")
 ASSUMPTIONS = [
@@ -36,8 +39,11 @@ ASSUMPTIONS = [
     "are suppressed, not removed, and are not expected in the returned list",
     "a taxa / labels argument documented as 'any iterable' may be a list, tuple, set, frozenset, dict view, TaxonNamespace, "
     "iterator or generator",
-    "where the source already has an out-degree-one node and suppression is requested, results are compared modulo "
-    "out-degree-one nodes (the statement speaks of nodes *left* with a single child); with suppression declined they must all stay",
+    "where the source already has out-degree-one nodes: with suppression requested and at least one leaf excluded every "
+    "out-degree-one node must be gone with its length added to its child (in-place pruning does that, and the statement requires "
+    "extraction to agree with in-place pruning); only when no leaf at all is excluded are results compared modulo out-degree-one "
+    "nodes, because extract_tree documents that suppression is 'only done if some nodes are excluded'; with suppression declined "
+    "every such node must stay",
     "trees are compared as unordered labelled trees with lengths and node labels; child order never decides",
     "for unrooted trees with update_bipartitions=True the documented collapse of the basal bifurcation by "
     "encode_bipartitions is accepted: unrooted splits with merged lengths, leaf set, path lengths and node labels per clade are compared",
@@ -780,6 +786,7 @@ def check_unif_group(case, ctx):
         if api in INPLACE:
             sub["upd"] = False
         ctx.count("unifurcation_layer_calls")
+        ctx.case(_key(sub), nontrivial=case["n"] >= 2)
         results[api] = _check(sub, ctx)
     shape, sn = _src(case)
     nothing_excluded = len(case["keep"]) == case["n"]
@@ -1082,9 +1089,7 @@ def run_unif(chunk, ctx):
             ctx.count("source_drawings_with_unifurcations")
             for keep in nonempty_subsets(labels):
                 for suppress in (True, False):
-                    case = dict(base, kind="unifgroup", keep=list(keep), suppress=suppress)
-                    ctx.case(_key(case), nontrivial=nt)
-                    check_unif_group(case, ctx)
+                    check_unif_group(dict(base, kind="unifgroup", keep=list(keep), suppress=suppress), ctx)
                     if is_base:
                         # the remaining entry points on the as-generated order
                         for api in INPLACE:
